@@ -35,6 +35,7 @@ DEFS = [
     ('basic::B7', '', range(0, 3), (0,), ['#?', '#abcdefghi?', '#abcdefghij?', '#abcdefghijk?', '#abcdefghijklmnop?', '#abcdefghijklmnopqr?', '#abcdefghijklmnopqrstuvwx?', 'ab#cdefghijkl?', '#abcdefghij\\n?', '?', '#??'], (0, 2)),
     ('basic::E1', '', range(0, 6), (0, 1), ['ab?', 'abc?', 'abcd?', 'x1?', 'x12?', 'x?', 'abcd??', 'x1y?'], (0, 1)),
     ('skip::S1', ' \t', range(0, 2), (0,), [' a?', 'ab ?', 'a?', 'a ?', ' ?', '  ?', 'a \t?', '1 ? ', ' =?', 'a??', ' ??', 'ab=?1', '\t? a'], (0, 1)),
+    ('skip::S3', ' ', range(0, 2), (0,), [' \r?', 'a \r?', ' \r\n?', '  \r?', 'a  ?', ' ?', '\r?', ' \rb?', ' \r?b'], (0, 1)),
     ('skip::S2', '\n-', range(0, 3), (0,), ['-?', '--?', '\n?', '---?', 'a-?', '--\n?', '-??', '->?'], (0, 1)),
     ('utf8::U1', '', range(0, 3), (0,), ['é?', '€?', '€€?', '€€x?', '😀?', 'aß?', '?', 'ö?', '€é?', 'Ã?'[:0] + 'a?'], (0,)),
     ('utf8::U2', '', range(0, 2), (0,), ['x?', 'x??', '"?', '"é?', '"€"?', 'x€?', '"a?'], (0,)),
@@ -48,6 +49,7 @@ DEFS = [
     ('twins::P2', '', range(0, 3), (0,), ['x?', 'a?', 'ab?', 'abc?', 'b!?', '??', 'y?', 'y\u00e9?', 'z?', 'z\u00e9?', 'zb?'], (0,)),
     ('twins::O1', 'sS', range(0, 2), (0,), ['a?', 'ab?', 'A?', 'Ab?', 'd?', 'dxe?', 'dxex?', 's?', 'sSa?', 'abc?', 'D?e'], (0,)),
     ('twins::O2', '_', range(0, 3), (0,), ['1?', '_?', 'n?', '_1?', '12_?'], (0,)),
+    ('twins::O3', '_', range(0, 3), (0,), ['h?', '_h?', 'h\u00e9?'], (0,)),
     ('twins::Q1', ' ', range(0, 4), (0,), ['.?', '..?', '...?', ' ?', '. ?', '.. .?'], (0,)),
     ('utf8::E2', '', range(0, 4), (0,), ['a?', 'a€?', 'a??', '€?', '😀?', '???', '????', '\U00010000?', '\U00040000?', '\U00010000a?', 'a\U0010ffff?', '\u20ada?'], (0,)),
 ]
@@ -79,6 +81,7 @@ for (ty, skipb, lens, fstarts, ctxs, cstarts) in DEFS:
             if name in seen: continue
             seen.add(name)
             add(name, max(len(bs) + 3, 4), 'attempt_context::<%s, %d>([%s], %d, %d, false)' % (ty, len(bs), arr, s, nsk), d=short, kind='ctx', n=len(bs), s=s, sym=bs.count(None), ctx=c)
+            add('ctxc' + name[3:], max(len(bs) + 3, 4), 'attempt_context::<%s, %d>([%s], %d, %d, true)' % (ty, len(bs), arr, s, nsk), d=short, kind='ctxc', n=len(bs), s=s, sym=bs.count(None), ctx=c)
 
 # skeletons: concrete skip bytes, '?' = symbolic non-skip byte
 SKEL = [
@@ -107,6 +110,7 @@ TWINS = [  # (A, B, need_utf8, contexts)
     ('twins::O1', 'twins::O1A', False, ['?', '??', 'a?', 'ab?', 'A?', 'Ab?', 'd?', 'dxe?', 'dxex?', 's?', 'sSa?', 'abc?', 'D?e']),
     ('twins::O1', 'twins::O1B', False, ['?', '??', 'a?', 'ab?', 'A?', 'Ab?', 'd?', 'dxe?', 'dxex?', 's?', 'sSa?', 'abc?', 'D?e']),
     ('twins::O2', 'twins::O2A', False, ['?', '??', '???', '1?', '_?', 'n?', '_1?', '12_?']),
+    ('twins::O3', 'twins::O3A', False, ['?', '??', 'h?', '_h?']),
 ]
 for (a, b, u8_, ctxs) in TWINS:
     sa, sb = a.split('::')[-1], b.split('::')[-1]
@@ -118,6 +122,7 @@ for (a, b, u8_, ctxs) in TWINS:
 MODES = [
     ('utf8::U1', 'twins::M1B', ['?', '??', 'é?', '€?', '€€?', '€€x?', '😀?', 'aß?', 'ö?', '€é?', 'a?', '???', 'a???']),
     ('utf8::U2', 'twins::M2B', ['?', '??', 'x?', 'x??', '"?', '"é?', '"€"?', 'x€?', '"a?', 'x???']),
+    ('twins::M3', 'twins::M3B', ['?', '??', 'x?', 'x??', 'x\u00e9?', 'y?', 'y??', 'y\u00e9?', 'y\u00e9\u00f6?', 'x€?']),
 ]
 for (a, b, ctxs) in MODES:
     sa, sb = a.split('::')[-1], b.split('::')[-1]
